@@ -3,6 +3,7 @@
 package client
 
 import (
+	"math"
 	"time"
 
 	basetimebase "example.com/scion-time/base/timebase"
@@ -179,14 +180,16 @@ func c17ntimedState(name string) *NtimedFilter {
 // a clock step (new epoch) or an explicit reset makes the filter behave exactly like a fresh one
 func VerifC17NtimedReset() {
 	c17clk()
-	c17epoch = v.Uint64("epoch")
+	// (which epoch numbers are involved does not matter, only that they differ: concrete values keep
+	// the comparison out of the floating-point queries)
+	c17epoch = 7
 	f := c17ntimedState("f")
 	g := NewNtimedFilter(nil)
 	explicit := v.Bool("explicit")
 	if explicit {
 		f.Reset()
 	} else {
-		v.Assume(f.epoch != c17epoch)
+		f.epoch = 6
 	}
 	for i := 0; i < 3; i++ {
 		s := c17newSample()
@@ -201,7 +204,7 @@ func VerifC17NtimedReset() {
 // an explicit reset clears every piece of learned state
 func VerifC17NtimedResetState() {
 	c17clk()
-	c17epoch = v.Uint64("epoch")
+	c17epoch = 7
 	f := c17ntimedState("f")
 	f.Reset()
 	g := NewNtimedFilter(nil)
@@ -210,12 +213,18 @@ func VerifC17NtimedResetState() {
 	// a new clock epoch does the same before the sample is absorbed: two filters that differ only in
 	// their stale state end up in the same state
 	h1, h2 := c17ntimedState("h1"), c17ntimedState("h2")
-	v.Assume(h1.epoch != c17epoch && h2.epoch != c17epoch)
+	h1.epoch, h2.epoch = 5, 6
 	s := c17newSample()
 	a := h1.Do(s.t0, s.t1, s.t2, s.t3)
 	b := h2.Do(s.t0, s.t1, s.t2, s.t3)
 	v.Assert(a == b, "C17.ntimed.epoch-change-output-independent-of-stale-state")
-	v.Assert(h1.alo == h2.alo && h1.amid == h2.amid && h1.ahi == h2.ahi && h1.alolo == h2.alolo && h1.ahihi == h2.ahihi && h1.navg == h2.navg && h1.epoch == h2.epoch, "C17.ntimed.epoch-change-state-independent-of-stale-state")
+	same := func(x, y float64) bool { return math.Float64bits(x) == math.Float64bits(y) }
+	v.Assert(same(h1.alo, h2.alo), "C17.ntimed.epoch-change-state-independent-of-stale-state.alo")
+	v.Assert(same(h1.amid, h2.amid), "C17.ntimed.epoch-change-state-independent-of-stale-state.amid")
+	v.Assert(same(h1.ahi, h2.ahi), "C17.ntimed.epoch-change-state-independent-of-stale-state.ahi")
+	v.Assert(same(h1.alolo, h2.alolo), "C17.ntimed.epoch-change-state-independent-of-stale-state.alolo")
+	v.Assert(same(h1.ahihi, h2.ahihi), "C17.ntimed.epoch-change-state-independent-of-stale-state.ahihi")
+	v.Assert(same(h1.navg, h2.navg) && h1.epoch == h2.epoch, "C17.ntimed.epoch-change-state-independent-of-stale-state.navg-epoch")
 	v.Reach("C17.ntimedresetstate")
 }
 
